@@ -219,6 +219,7 @@ func c18(c *an.Check) {
 	// the grant decryption chain is part of unsealing: tampered grant ciphertexts reach it
 	peerEncryptTotality(c, "envelope grant decryption chain totality")
 	seenSetScope(c, unlock)
+	decryptInputUntouched(c)
 	// de-duplication key (Recover's precondition)
 	var seenLook []*ssa.Lookup
 	for _, b := range unlock.Blocks {
